@@ -1258,6 +1258,10 @@ type c07Stim struct {
 	Target string     `json:"tgt,omitempty"`  // commit: the rule's decision ("" = the real rule decides)
 	Down   bool       `json:"down,omitempty"` // peers do not answer block requests during this stimulus
 	OldN   int        `json:"oldn,omitempty"` // the certificates are built for a membership of this size (replay after growth)
+	// origin flags, as the real entry points set them: server.serviceImpl.NewView leaves FromNetwork false (only
+	// the twins sender sets it); a TimeoutMsg of the simple timeout rule carries no message signature
+	NoNet    bool `json:"nonet,omitempty"`    // newview: FromNetwork false
+	NoMsgSig bool `json:"nomsgsig,omitempty"` // timeout: MsgSignature nil
 }
 
 func (s c07Stim) String() string {
@@ -1283,6 +1287,9 @@ func (s c07Stim) String() string {
 	}
 	if s.OldN > 0 {
 		si += fmt.Sprintf("[built for n=%d]", s.OldN)
+	}
+	if s.NoNet {
+		si += "[as server.go delivers it]"
 	}
 	if s.Down {
 		return s.Op + si + "[peers down]"
@@ -1357,7 +1364,7 @@ func (w *c07World) apply(s c07Stim) (pan any) {
 	case "adv":
 		w.syn.advanceView(si)
 	case "newview":
-		w.el.AddEvent(hotstuff.NewViewMsg{ID: 2, SyncInfo: si, FromNetwork: true})
+		w.el.AddEvent(hotstuff.NewViewMsg{ID: 2, SyncInfo: si, FromNetwork: !s.NoNet})
 	case "propose":
 		qc, _ := si.QC()
 		w.nprop++
@@ -1392,9 +1399,11 @@ func (w *c07World) apply(s c07Stim) (pan any) {
 		vsig, cs := u.multi([]c07Part{part})
 		w.hold(cs)
 		tm := hotstuff.TimeoutMsg{ID: hotstuff.ID(s.From), View: view, ViewSignature: vsig, SyncInfo: si}
-		msig, cs2 := u.multi([]c07Part{{s.From, s.From, tm.ToBytes()}})
-		w.hold(cs2)
-		tm.MsgSignature = msig
+		if !s.NoMsgSig {
+			msig, cs2 := u.multi([]c07Part{{s.From, s.From, tm.ToBytes()}})
+			w.hold(cs2)
+			tm.MsgSignature = msig
+		}
 		w.el.AddEvent(tm)
 	case "vote": // a single replica's vote for a block, as the leader's vote collector receives it
 		b := u.blocks[s.Block]
@@ -1846,6 +1855,7 @@ func (r *c07Runner) exhaustive(thorough bool) {
 						if n%5 == 4 {
 							op = "newview"
 						}
+						noNet := n%10 == 9
 						n++
 						st := w.obs()
 						w.held = map[c07Contrib]bool{}
@@ -1853,7 +1863,7 @@ func (r *c07Runner) exhaustive(thorough bool) {
 							w.held[c] = true
 						}
 						w.hist = append([]string(nil), baseHist...)
-						after := w.do(r.o, c07Stim{Op: op, SI: &c07SISpec{QC: q, TC: t, Agg: a}})
+						after := w.do(r.o, c07Stim{Op: op, SI: &c07SISpec{QC: q, TC: t, Agg: a}, NoNet: noNet})
 						if after != st {
 							w = r.fresh(prefix)
 						}
@@ -2007,7 +2017,7 @@ func (r *c07Runner) random(seqs int) {
 			case x < 5:
 				s = r.honest(cv)
 			case x < 9:
-				s = c07Stim{Op: "newview", SI: r.randSI(cv)}
+				s = c07Stim{Op: "newview", SI: r.randSI(cv), NoNet: r.rng.intn(2) == 0}
 			case x < 11:
 				s = c07Stim{Op: "adv", SI: r.randSI(cv)}
 			case x < 14:
@@ -2047,7 +2057,7 @@ func (r *c07Runner) random(seqs int) {
 					} else {
 						si = &c07SISpec{QC: &c07QCSpec{Kind: "valid", Block: "G"}}
 					}
-					w.do(r.o, c07Stim{Op: "timeout", View: tv, From: from, Sig: sig, SI: si})
+					w.do(r.o, c07Stim{Op: "timeout", View: tv, From: from, Sig: sig, SI: si, NoMsgSig: !r.agg && k%2 == 1})
 				}
 				if opt.cache > 0 || r.rng.intn(4) == 0 {
 					// certificates made of the individual signatures the replica has just verified (and cached)
